@@ -318,6 +318,8 @@ func c03(c *core.Check) {
 	c03Matcher(c, r7)
 	r10 := c.Rule("R10", "an invalid rule is dropped alone: in html/tree, css/validation and css/parser no loop tests an error that it carries over from a previous iteration (an error variable assigned in one iteration and still set in the next makes every following item fail with the first bad one)", 20)
 	staleErrorRule(c, r10, "html/tree", "css/validation", "css/parser")
+	r11 := c.Rule("R11", "an imported sheet can be imported again: in preprocessStylesheetImports the url marked while its sheet is loaded is unmarked by a direct delete before the next rule of the importing sheet is processed", 1)
+	importScopeRule(c, r11)
 }
 
 func c03Matcher(c *core.Check, r *core.Rule) {
@@ -345,6 +347,51 @@ func c03Matcher(c *core.Check, r *core.Rule) {
 	always, exits := core.EveryIterationPasses(l, func(in ssa.Instruction) bool { return in == matchCall })
 	r.Cond(always, "every selector of the list is tested", p.Pos(matchCall.Pos()), "every iteration of the selector loop reaches sel.Match(element)", "an iteration of the selector loop can complete without calling sel.Match: a selector of the list is skipped, the rule then applies with another selector's specificity or not at all")
 	r.Cond(len(exits) == 0, "the selector loop has no early exit", p.Pos(matchCall.Pos()), "the loop is left only when the list is exhausted", "the loop over the selector list can be left early: later (possibly more specific) selectors of the list are not tested")
+	// every selector that matches contributes a result: from the true branch of the test on sel.Match, every path
+	// back to the loop header passes through an append
+	var matchIf *ssa.If
+	if mv, ok := matchCall.(ssa.Value); ok && mv.Referrers() != nil {
+		for _, ref := range *mv.Referrers() {
+			if ifi, ok := ref.(*ssa.If); ok {
+				matchIf = ifi
+			}
+		}
+	}
+	if matchIf == nil {
+		r.Anchor("matcher.match: if sel.Match(element)")
+		return
+	}
+	isAppend := func(in ssa.Instruction) bool {
+		call, ok := in.(*ssa.Call)
+		if !ok {
+			return false
+		}
+		b, ok := call.Call.Value.(*ssa.Builtin)
+		return ok && b.Name() == "append"
+	}
+	skipped := false
+	seen := map[*ssa.BasicBlock]bool{}
+	var walk func(b *ssa.BasicBlock)
+	walk = func(b *ssa.BasicBlock) {
+		if seen[b] {
+			return
+		}
+		seen[b] = true
+		for _, in := range b.Instrs {
+			if isAppend(in) {
+				return
+			}
+		}
+		for _, s := range b.Succs {
+			if s == l.Header || !l.Blocks[s] {
+				skipped = true
+				continue
+			}
+			walk(s)
+		}
+	}
+	walk(matchIf.Block().Succs[0])
+	r.Cond(!skipped, "every matching selector contributes its own result", p.Pos(matchIf.Pos()), "from the branch where sel.Match is true every path to the next selector appends a result", "a selector that matches can be passed over without a result (a shortcut for a rule that already applied): the rule then weighs as its first matching selector, not as its most specific one (`p, #x {…}` against `.c {…}` on <p id=x class=c>)")
 }
 
 func unusedC03() {}
